@@ -227,6 +227,13 @@ fn one_case(ctx: &Ctx, case: u64, l: &mut Local) {
                 extra.paths.push(format!("{base}\u{a0}"));
                 extra.paths.push(format!("{base}.no.such"));
             }
+            let genuine = s.strat.paths.len();
+            let tail: Vec<String> = extra.paths.split_off(genuine);
+            for e in tail {
+                if !gen::path_names_claim(&s.u, &e) {
+                    extra.paths.push(e);
+                }
+            }
             let s2 = Scenario {
                 cfg: cfg.clone(),
                 u: s.u.clone(),
